@@ -37,6 +37,28 @@ Proof. intros CS c limit sts_in raws fault sf outs r evs H. exact (proj1 (reader
 Theorem error_text_names_row_and_column : forall l : location, lo_has_cell l = true -> lo_has_column l = false ->
   rc_of_text (loc_text l) = Some (Z.of_nat (lo_line l) + 1, Z.of_nat (lo_cell l) + 1)%Z.
 Proof. exact loc_text_names_row_and_cell. Qed.
+(* the two together: the message of a rejected row - its location printed as the Reader prints it, for a source named
+   [path] - ends in R<n>C<k> where n is the number of the row being validated (the reader's cursor, 1-based in the
+   text) and k the first offending column, 1 for a wrong item count and for a failed row check *)
+Definition printed (path : text) (l : loc) : text :=
+  loc_text {| lo_path := path; lo_line := l_line l; lo_column := 0; lo_cell := l_cell l; lo_sheet := 0;
+              lo_has_column := false; lo_has_cell := true; lo_has_sheet := false |}.
+Theorem rejection_text_names_row_and_first_offending_column : forall (CS : Type) (c : cid CS) path sts l row sts' e l' evs,
+  validate_row c sts l row = (sts', Some e, l', evs) ->
+  exists k, rc_of_text (printed path (e_loc e)) = Some (Z.of_nat (l_line l) + 1, Z.of_nat k + 1)%Z /\
+    ((e_family e = FFieldValue /\ first_bad (c_fmt c) (c_fields c) row k /\ e_field e = Some k)
+     \/ (e_family e <> FFieldValue /\ (k = 0%nat \/ (e_family e = FData /\ k = l_cell l)))).
+Proof.
+  intros CS c path sts l row sts' e l' evs H.
+  destruct (row_error_names_culprit CS c sts l row sts' e l' evs H) as [Hline [_ Hcases]].
+  exists (l_cell (e_loc e)). split.
+  - unfold printed. rewrite error_text_names_row_and_column by reflexivity. cbn. rewrite Hline. reflexivity.
+  - destruct Hcases as [[_ [Hf [Hl _]]] | [[_ [_ [i [Hb [Hf [Hl Hfield]]]]]] | [_ [_ [_ [Hf [Hl _]]]]]]].
+    + right. split; [rewrite Hf; discriminate|]. right. split; [exact Hf|]. rewrite Hl. reflexivity.
+    + left. rewrite Hl. cbn [l_cell set_cell]. split; [exact Hf|]. split; [exact Hb|exact Hfield].
+    + right. split; [rewrite Hf; discriminate|]. left. rewrite Hl. reflexivity.
+Qed.
+
 Example location_text_example :
   option_map loc_text (lsteps (new_location (txt "some/dir/data (R9C9).csv") false true false) [LAdvLine 1; LAdvLine 1; LSetCell 4])
   = Some (txt "data (R9C9).csv (R3C5)")
